@@ -930,13 +930,27 @@ func first(a, _ []byte) []byte { return a }
 
 // lowestCommonParent: byte-directed descent. Rung 1: safety, purity, and the result is a
 // live well-typed reference of the tree (what filter requires).
-//@ func lowestCommonParent@{alpha,collation}
-//@   opt kind $KIND
+//@ func lowestCommonParent@alpha
+//@   opt kind alpha
+//@   opt leaf alphaLeafNode
 //@   opt casts on
 //@   opt extent on
-//@   requires root.pointer != nil && liveRef(root) && HeapOK_$KIND() && LinkedLive() && leafT() == leafT()
+//@   requires root.pointer != nil && liveRef(root) && HeapOK_alpha() && LinkedLive() && leafT() == typeid(alphaLeafNode)
 //@   ensures[live] result.pointer != nil && liveRef(result)
 //@   assigns nothing
 //@   loop 1 (depth)
 //@     invariant 0 <= depth && depth <= len(prefix) && n.pointer != nil && liveRef(n)
 //@     decreases len(prefix) - depth
+
+//@ func lowestCommonParent@collation
+//@   opt kind collation
+//@   opt leaf collateLeafNode
+//@   opt casts on
+//@   opt extent on
+//@   requires root.pointer != nil && liveRef(root) && HeapOK_collation() && LinkedLive() && leafT() == typeid(collateLeafNode)
+//@   ensures[live] result.pointer != nil && liveRef(result)
+//@   assigns nothing
+//@   loop 1 (depth)
+//@     invariant 0 <= depth && depth <= len(prefix) && n.pointer != nil && liveRef(n)
+//@     decreases len(prefix) - depth
+
